@@ -22,6 +22,10 @@ PROP = 'C07'
 
 
 def worker_init():
+    from vf.x86 import explore as E_
+    E_.worker_init()          # installs the import hook, loads the x86 modules (programs / rep part)
+    from vf.checks import c11 as c11_
+    c11_.worker_init()
     c13.worker_init()
     global X, H, M, EA
     X, H, M = c05.X, c05.H, c05.M
